@@ -78,6 +78,7 @@ blocked = F("blocked", Opt, Key, B)  # a proper prefix of k holds a scalar (get_
 top = F("top", Key, B)               # key has no dot
 mix = F("mix", Opt, Opt, Opt)
 EMPTY = z3.Const("EMPTY", Opt)
+mixv = F("mixv", Val, Val, Val)     # value-level merge of two dict nodes
 single = F("single", Key, Val, Opt)  # set_dotted_key(k, v, {})
 sub = F("sub", Opt, Opt, B)          # pruning order
 shadow = F("shadow", Opt, Key, B)
@@ -173,20 +174,41 @@ def exc_hierarchy_axioms():
             ax.append(z3.ForAll([x], z3.Not(z3.And(is_cls[a](x), is_cls[b](x))), patterns=[is_cls[a](x), is_cls[b](x)]))
     ax.append(z3.ForAll([x], z3.Not(z3.And(is_cls["EvaluationError"](x), is_cls["CacheFailure"](x))),
                         patterns=[is_cls["EvaluationError"](x), is_cls["CacheFailure"](x)]))
-    # origin / missing / mkey over the cause chain
-    ax.append(z3.ForAll([x], z3.Implies(z3.Not(has_cause(x)), origin(x) == x), patterns=[origin(x)]))
-    ax.append(z3.ForAll([x], z3.Implies(has_cause(x), origin(x) == origin(exc_cause(x))), patterns=[origin(x)]))
-    ax.append(z3.ForAll([x], missing(x) == is_cls["KeyNotFoundError"](origin(x)), patterns=[missing(x)]))
-    ax.append(z3.ForAll([x], mkey(x) == exc_key(origin(x)), patterns=[mkey(x)]))
+    # origin / missing / mkey are maintained as ground facts at every raise site (no quantified chain axioms: matching loops)
     return ax
 
 
 # --------------------------------------------------------------------------- helpers
+agreeP = F("agreeP", Opt, Opt, KSet, B)      # every key of S present in both with equal subtree value
+subsetP = F("subsetP", KSet, KSet, B)
+agree_w = F("agree_w", Opt, Opt, KSet, Key)  # skolem witness of not-agree
+
+
 def agree(o, o2, S):
-    """every key of S is present in both with equal subtree value (macro, quantified)."""
-    k = z3.Const("k!ag", Key)
-    return z3.ForAll([k], z3.Implies(z3.IsMember(k, S), z3.And(has(o2, k), has(o, k), get(o2, k) == get(o, k))),
-                     patterns=[z3.IsMember(k, S)])
+    return agreeP(o, o2, S)
+
+
+def agree_axioms():
+    o, o2 = z3.Consts("o! o2!", Opt)
+    S, U, W = z3.Consts("S! U! W!", KSet)
+    k = z3.Const("k!", Key)
+    w = agree_w(o, o2, S)
+    return [
+        z3.ForAll([o, o2, S, k], z3.Implies(z3.And(agreeP(o, o2, S), z3.IsMember(k, S)),
+                                            z3.And(has(o, k), has(o2, k), get(o2, k) == get(o, k))),
+                  patterns=[z3.MultiPattern(agreeP(o, o2, S), z3.IsMember(k, S))]),
+        z3.ForAll([o, o2, S, U], z3.Implies(z3.And(agreeP(o, o2, S), subsetP(U, S)), agreeP(o, o2, U)),
+                  patterns=[z3.MultiPattern(agreeP(o, o2, S), subsetP(U, S))]),
+        z3.ForAll([o, o2, S], z3.Implies(z3.Implies(z3.IsMember(w, S), z3.And(has(o, w), has(o2, w), get(o2, w) == get(o, w))),
+                                         agreeP(o, o2, S)),
+                  patterns=[agreeP(o, o2, S)]),
+        z3.ForAll([S], subsetP(S, S), patterns=[subsetP(S, S)]),
+        z3.ForAll([S, U, k], z3.Implies(z3.And(subsetP(U, S), z3.IsMember(k, U)), z3.IsMember(k, S)),
+                  patterns=[z3.MultiPattern(subsetP(U, S), z3.IsMember(k, U))]),
+        z3.ForAll([S, U, W], z3.Implies(z3.And(subsetP(U, S), subsetP(S, W)), subsetP(U, W)),
+                  patterns=[z3.MultiPattern(subsetP(U, S), subsetP(S, W))]),
+        z3.ForAll([o, o2], agreeP(o, o2, z3.EmptySet(Key)), patterns=[agreeP(o, o2, z3.EmptySet(Key))]),
+    ]
 
 
 def subset(S, T):
@@ -285,7 +307,10 @@ def opt_axioms():
                                               get(mix(a, b), k) == get(b, k)),
                         patterns=[get(mix(a, b), k)]))
     ax.append(z3.ForAll([a, b, k], z3.Implies(z3.And(has(a, k), z3.Not(has(b, k)), z3.Not(shadow(b, k))),
-                                              z3.Implies(z3.Not(isdict(get(a, k))), get(mix(a, b), k) == get(a, k))),
+                                              get(mix(a, b), k) == get(a, k)),
+                        patterns=[get(mix(a, b), k)]))
+    ax.append(z3.ForAll([a, b, k], z3.Implies(z3.And(has(b, k), isdict(get(b, k)), has(a, k), isdict(get(a, k))),
+                                              get(mix(a, b), k) == mixv(get(a, k), get(b, k))),
                         patterns=[get(mix(a, b), k)]))
     # a dict node of `a` untouched by b (no key of b at or below k) keeps its value -- stated via ghost `touch`
     ax.append(z3.ForAll([a, b, k], z3.Implies(z3.And(has(mix(a, b), k), has(b, k), isdict(get(b, k))), isdict(get(mix(a, b), k))),
@@ -322,6 +347,8 @@ def resolve_axioms():
     ax.append(z3.ForAll([v, o], z3.Implies(z3.Not(resolve_ok(v, o)),
                                            z3.Or(z3.And(is_cls["KeyError"](x), z3.Not(has_cause(x)), z3.Not(has(o, exc_key(x))), z3.Not(blocked(o, exc_key(x)))),
                                                  z3.And(is_cls["TypeError"](x), z3.Not(has_cause(x))))),
+                        patterns=[resolve_ok(v, o)]))
+    ax.append(z3.ForAll([v, o], z3.Implies(z3.Not(resolve_ok(v, o)), z3.And(z3.Not(missing(x)), origin(x) == x)),
                         patterns=[resolve_ok(v, o)]))
     # read set present when it succeeds
     ax.append(z3.ForAll([v, o, k], z3.Implies(z3.And(resolve_ok(v, o), z3.IsMember(k, RD(v, o))), has(o, k)),
@@ -430,5 +457,14 @@ def child_laws(which=("L1", "L2", "L3", "L4a", "L5", "L6", "L6v")):
     return ax
 
 
+def call_axioms():
+    f, a = z3.Consts("f! a!", Val)
+    x = call_exc(f, a)
+    return [z3.ForAll([f, a], z3.Implies(z3.Not(call_ok(f, a)), z3.And(is_cls["Exception"](x), z3.Not(missing(x)))), patterns=[call_ok(f, a)])]
+
+
+assume("A-pure.notmissing", "an exception raised by a user callable is not (and does not originate in) a labrea KeyNotFoundError")
+
+
 def base_axioms():
-    return exc_hierarchy_axioms() + val_axioms() + opt_axioms() + resolve_axioms()
+    return exc_hierarchy_axioms() + val_axioms() + opt_axioms() + agree_axioms() + resolve_axioms() + call_axioms()
